@@ -352,3 +352,4 @@ def run(ctx):
     _codec.rule_offset_sets(ctx, cd, "des", "R-C02-OFFSET-SET")
     _codec.rule_padding(ctx, cd, "des", "R-C02-PADDING")
     _codec.rule_pad_body(ctx, cd, "des", "R-C02-PAD-BODY")
+    _codec.rule_py_align(ctx, cd, pyfront.PyIndex(ctx.root), "des", "R-C02-PY-ALIGN")
